@@ -1,0 +1,66 @@
+//go:build verif
+
+// Contracts for the deductive verifier in /verif (govc). Comment-only: this file adds no code.
+package datamodeldiagram
+
+// ---- C15: one class per name, one relationship line per reference
+
+// Alias allocation: a name that is known keeps its alias and the table is unchanged; a new name gets the next number
+// (the size of the table, which no existing entry has); no other entry is touched.
+//@ func (*DataModelView).UniqueVarForAppName
+//@   requires v != nil && v.Symbols != nil
+//@   requires [numbers-below-size] forallstr(k, in(k, v.Symbols) ==> v.Symbols[k] != nil && v.Symbols[k].Order < len(v.Symbols))
+//@   modifies mapof(v.Symbols)
+//@   perwrite
+//@   loop 0 invariant [own-array] fresh(withoutEmptyStrings)
+//@   ensures [result-is-the-alias-of-the-name] in(appName, v.Symbols) && result == v.Symbols[appName].Alias
+//@   ensures [known-name-keeps-its-alias] old(in(appName, v.Symbols)) ==> result == old(v.Symbols[appName].Alias) && len(v.Symbols) == old(len(v.Symbols))
+//@   ensures [new-name-gets-the-next-number] !old(in(appName, v.Symbols)) ==> len(v.Symbols) == old(len(v.Symbols)) + 1 && v.Symbols[appName].Order == old(len(v.Symbols))
+//@   ensures [other-names-untouched] forallstr(k, k != appName ==> in(k, v.Symbols) == old(in(k, v.Symbols)) && v.Symbols[k] == old(v.Symbols[k]))
+//@   ensures [numbers-still-below-size] forallstr(k, in(k, v.Symbols) ==> v.Symbols[k] != nil && v.Symbols[k].Order < len(v.Symbols))
+//@   ensures [assumed-alias-is-a-function-of-the-name] result == aliasOf(v, len(nameParts), ite(len(nameParts) > 0, nameParts[0], ""), ite(len(nameParts) > 1, nameParts[1], ""), ite(len(nameParts) > 2, nameParts[2], ""))
+//@ ufun aliasOf(v int, n int, a string, b string, c string) string
+// The label callback only computes a string.
+//@ func iface:github.com/anz-bank/sysl/pkg/cmdutils.ClassLabeler.LabelClass
+//@   trusted
+//@   noeffect
+
+// Relationship counting: every reference adds exactly one to the counter of its (source, target) pair — a first
+// reference creates the pair with count 1 and the target's alias, a further one keeps entity and label and adds one.
+//@ func (*DataModelView).DrawRelation
+//@   requires v != nil && v.Symbols != nil && v.StringBuilder != nil && entity != nil && relationshipMap != nil
+//@   requires [numbers-below-size] forallstr(k, in(k, v.Symbols) ==> v.Symbols[k] != nil && v.Symbols[k].Order < len(v.Symbols))
+//@   ensures [numbers-still-below-size] forallstr(k, in(k, v.Symbols) ==> v.Symbols[k] != nil && v.Symbols[k].Order < len(v.Symbols))
+//@   loop 0 invariant [numbers-below-size] v.Symbols != nil && forallstr(k, in(k, v.Symbols) ==> v.Symbols[k] != nil && v.Symbols[k].Order < len(v.Symbols))
+//@   loop 1 invariant [numbers-below-size] v.Symbols != nil && forallstr(k, in(k, v.Symbols) ==> v.Symbols[k] != nil && v.Symbols[k].Order < len(v.Symbols))
+//@   assert @mapupdate:map[string]datamodeldiagram.RelationshipParam [one-more-line-per-reference] (in(mapkey, maptarget) ==> stored.Count == maptarget[mapkey].Count + 1 && stored.Entity == maptarget[mapkey].Entity && stored.Relationship == maptarget[mapkey].Relationship) && (!in(mapkey, maptarget) ==> stored.Count == 1 && stored.Entity == mapkey)
+//@   ghostclear @iter:1 counted
+//@   ghostset @mapupdate:map[string]datamodeldiagram.RelationshipParam counted
+//@   loop 1 step [every-reference-is-counted] attrType.GetTypeRef() != nil ==> ghost("counted")
+
+//@ func (*DataModelView).DrawTuple
+//@   requires v != nil && v.Symbols != nil && v.StringBuilder != nil && entity != nil && relationshipMap != nil
+//@   requires [numbers-below-size] forallstr(k, in(k, v.Symbols) ==> v.Symbols[k] != nil && v.Symbols[k].Order < len(v.Symbols))
+//@   ensures [numbers-still-below-size] forallstr(k, in(k, v.Symbols) ==> v.Symbols[k] != nil && v.Symbols[k].Order < len(v.Symbols))
+//@   loop 0 invariant [numbers-below-size] v.Symbols != nil && forallstr(k, in(k, v.Symbols) ==> v.Symbols[k] != nil && v.Symbols[k].Order < len(v.Symbols))
+//@   loop 1 invariant [numbers-below-size] v.Symbols != nil && relationshipMap != nil && forallstr(k, in(k, v.Symbols) ==> v.Symbols[k] != nil && v.Symbols[k].Order < len(v.Symbols))
+//@   assert @mapupdate:map[string]datamodeldiagram.RelationshipParam [one-more-line-per-reference] (in(mapkey, maptarget) ==> stored.Count == maptarget[mapkey].Count + 1 && stored.Entity == maptarget[mapkey].Entity && stored.Relationship == maptarget[mapkey].Relationship) && (!in(mapkey, maptarget) ==> stored.Count == 1 && stored.Entity == mapkey)
+
+// The view: every type that is looked up is drawn by the drawer of its kind, with its own name and definition.
+//@ func (*DataModelView).GenerateDataView
+//@   requires v != nil && v.Symbols != nil && v.StringBuilder != nil && dataParam != nil
+//@   assert @call:datamodeldiagram.(*DataModelView).DrawRelation [draws-own-table] arg1.EntityName == entityName && arg2 == entityType.GetRelation() && arg2 != nil
+//@   assert @call:datamodeldiagram.(*DataModelView).DrawTuple [draws-own-tuple] arg1.EntityName == entityName && arg2 == entityType.GetTuple() && arg2 != nil
+//@   assert @call:datamodeldiagram.(*DataModelView).DrawEnum [draws-own-enum] arg1 == entityName && arg2 == entityType.GetEnum() && arg2 != nil
+//@   assert @call:datamodeldiagram.(*DataModelView).DrawPrimitive [draws-own-alias] arg1.EntityName == entityName
+//@   ghostclear @iter:2 lookedup
+//@   ghostclear @iter:2 drawn
+//@   ghostset @lookup:map[string]*sysl.Type lookedup
+//@   ghostset @call:datamodeldiagram.(*DataModelView).DrawRelation drawn
+//@   ghostset @call:datamodeldiagram.(*DataModelView).DrawTuple drawn
+//@   ghostset @call:datamodeldiagram.(*DataModelView).DrawEnum drawn
+//@   ghostset @call:datamodeldiagram.(*DataModelView).DrawPrimitive drawn
+//@   mark @after:sysl.(*Type).GetRelation#1 rel
+//@   mark @after:sysl.(*Type).GetTuple#1 tup
+//@   mark @after:sysl.(*Type).GetEnum#1 enum
+//@   loop 2 step [every-table-tuple-enum-is-drawn] ghost("lookedup") && (at("rel", callresult) != nil || at("tup", callresult) != nil || at("enum", callresult) != nil) ==> ghost("drawn")
